@@ -8,7 +8,7 @@ from func_adl.type_based_replacement import register_func_adl_os_collection, rem
 
 from vlib.sh.common import HI, LO, TWIN, L, attr, call, const, dump, lam, mcall, name, nt, pick, tick
 
-NPOSN = 14
+NPOSN = 15
 
 
 class Trk:
@@ -16,6 +16,7 @@ class Trk:
     def m1(self, c: int) -> float: ...  # noqa
     def m2(self, c: int, a: int) -> float: ...  # noqa
     def m3(self, c: int, b: int, a: int) -> float: ...  # noqa
+    def q0(self) -> float: ...  # noqa
 
 
 class Jet:
@@ -131,6 +132,8 @@ def target(pos, n):
         return getattr(Odd, "m%d" % n), "m%d" % n
     if pos == 11:
         return getattr(Jet, "m%d" % n), "m%d" % n
+    if pos == 14:
+        return getattr(Jet, "m%d" % n), "m%d" % n
     if pos == 12:
         return getattr(Stat, "m%d" % n), "m%d" % n
     if pos == 13:
@@ -163,6 +166,10 @@ def site(pos, fname, args, kws):
         return TDS(), ast.BinOp(ast.Call(name(fname), args, kws), ast.Add(), const(1))
     if pos == 9:
         return TDS(), ast.Call(ast.Attribute(mcall(name("e"), "odd"), fname, L), args, kws)
+    if pos == 14:
+        # the call site is on the outer variable AFTER a nested lambda that re-used its name for an object of another class
+        first = mcall(mcall(mcall(name("j"), "Tracks"), "Select", lam("j", ast.Call(attr("j", "q0"), [], []))), "Count")
+        return TDS(), mcall(mcall(name("e"), "Jets"), "Select", lam("j", ast.Subscript(ast.Tuple([first, ast.Call(attr("j", fname), args, kws)], L), const(1), L)))
     if pos in (12, 13):
         return TDS(), ast.Call(ast.Attribute(mcall(name("e"), "stat" if pos == 12 else "var"), fname, L), args, kws)
     if pos == 11:
@@ -191,7 +198,7 @@ def op_calls(n):
 
 def c07(code: int, ndef: int, npos: int, kwmask: int, perm: int, v0: int, v1: int, v2: int, d0: int, d1: int, d2: int) -> str:
     """
-    pre: LO <= code < HI and 0 <= code < 42
+    pre: LO <= code < HI and 0 <= code < 45
     pre: 0 <= ndef <= 3 and 0 <= npos <= 3 and 0 <= kwmask < 8 and 0 <= perm < 6
     post: (_ == '') != TWIN
     """
